@@ -66,6 +66,11 @@ type minCase struct {
 	StatAt                             int // 0 no Problem.Status, k>0 terminal from the k-th call on
 	StatKind                           int // 0 (NotTerminated, err) 1 (custom, nil) 2 (custom, err)
 
+	// NMSimplex != 0: NelderMead is given InitialVertices/InitialValues (values
+	// of the well behaved objective): 1 x0 and x0 + e_i/2, 2 seeded vertices
+	// within distance 4 of x0 (x0 itself is then not a vertex).
+	NMSimplex int `json:",omitempty"`
+
 	// Dom != 0 replaces the objective by a strictly convex function with a
 	// restricted domain, started inside it (Dim 1..4, start drawn from Seed):
 	// 1 log barrier of the unit cube (NaN outside), 2 Σ x-√x (NaN for x < 0),
@@ -87,7 +92,7 @@ func (c minCase) history() []minCase {
 	for _, p := range c.Prev {
 		q := c
 		q.Prev = nil
-		if c.Method != mGuess && c.Method != mList {
+		if c.Method != mGuess && c.Method != mList && !(c.Method == mNelderMead && c.NMSimplex != 0) {
 			q.Obj, q.Dim, q.KappaExp, q.Start, q.Seed, q.Dom = p.Obj, p.Dim, p.KappaExp, p.Start, p.Seed, p.Dom
 			if q.Obj == 0 && q.Dim < 1 {
 				q.Dim = 1
@@ -305,6 +310,36 @@ type builtMethod struct {
 	m      optimize.Method
 	pcg    *rand.PCG
 	stream uint64
+	// copies of the data handed to the method value, for the check that
+	// Minimize leaves its arguments alone
+	nmVerts [][]float64
+	nmVals  []float64
+	locs    []float64
+}
+
+// callerDataModified compares the slices and matrices owned by the caller with
+// the copies taken when the method value was built.
+func (b *builtMethod) callerDataModified() string {
+	switch m := b.m.(type) {
+	case *optimize.NelderMead:
+		if b.nmVerts == nil {
+			return ""
+		}
+		if len(m.InitialVertices) != len(b.nmVerts) || !sameBitsVec(m.InitialValues, b.nmVals) {
+			return fmt.Sprintf("NelderMead.InitialValues is now %v, was %v", m.InitialValues, b.nmVals)
+		}
+		for i := range b.nmVerts {
+			if !sameBitsVec(m.InitialVertices[i], b.nmVerts[i]) {
+				return fmt.Sprintf("NelderMead.InitialVertices[%d] is now %v, was %v", i, m.InitialVertices[i], b.nmVerts[i])
+			}
+		}
+	case *optimize.ListSearch:
+		d := m.Locs.(*mat.Dense)
+		if !sameBitsVec(d.RawMatrix().Data, b.locs) {
+			return "ListSearch.Locs was modified"
+		}
+	}
+	return ""
 }
 
 func (b *builtMethod) reseed(seed uint64) {
@@ -317,7 +352,39 @@ func (c minCase) method(o *objective) optimize.Method { return c.build(o).m }
 
 func (c minCase) build(o *objective) *builtMethod {
 	m, pcg, stream := c.buildParts(o)
-	return &builtMethod{m: m, pcg: pcg, stream: stream}
+	b := &builtMethod{m: m, pcg: pcg, stream: stream}
+	switch m := m.(type) {
+	case *optimize.NelderMead:
+		if c.NMSimplex != 0 {
+			r := vk.NewSplitMix(c.Seed ^ 0x5117)
+			for i := 0; i <= o.dim; i++ {
+				v := append([]float64{}, o.x0...)
+				switch {
+				case c.NMSimplex == 1 && i > 0:
+					v[i-1] += 0.5
+				case c.NMSimplex != 1:
+					for j := range v {
+						v[j] += float64(r.Intn(33)-16) / 4
+					}
+					v[i%o.dim] += 0.125 * float64(i+1) // keeps the vertices distinct
+				}
+				m.InitialVertices = append(m.InitialVertices, v)
+				m.InitialValues = append(m.InitialValues, o.f(v))
+				b.nmVerts = append(b.nmVerts, append([]float64{}, v...))
+			}
+			b.nmVals = append([]float64{}, m.InitialValues...)
+			for _, v := range b.nmVals {
+				if math.IsNaN(v) || math.IsInf(v, 0) {
+					// a vertex outside the domain of the objective: no supplied simplex
+					m.InitialVertices, m.InitialValues, b.nmVerts, b.nmVals = nil, nil, nil, nil
+					break
+				}
+			}
+		}
+	case *optimize.ListSearch:
+		b.locs = append([]float64{}, m.Locs.(*mat.Dense).RawMatrix().Data...)
+	}
+	return b
 }
 
 func (c minCase) buildParts(o *objective) (optimize.Method, *rand.PCG, uint64) {
@@ -437,6 +504,8 @@ type outcome struct {
 	f0, g0    any // values supplied through InitValues (float64 / []float64) or nil
 	panicText string
 	mpanic    string
+	bm        *builtMethod
+	modified  string // caller-owned data changed by Minimize
 }
 
 func runMin(c minCase) outcome { return runMinOn(c, nil) }
@@ -507,9 +576,21 @@ func runMinOn(c minCase, bm *builtMethod) outcome {
 	bm.reseed(c.Seed)
 	gm := &guardMethod{inner: bm.m}
 	x0 := append([]float64{}, o.x0...)
+	sBefore := *s
 	r := vk.Call(func() { out.res, out.err = optimize.Minimize(prob, x0, s, gm) })
 	if r.Outcome != vk.Returned {
 		out.panicText = r.Text
+	}
+	out.bm = bm
+	switch {
+	case !sameBitsVec(x0, o.x0):
+		out.modified = fmt.Sprintf("initX is now %v, was %v", x0, o.x0)
+	case s.FuncEvaluations != sBefore.FuncEvaluations || s.GradEvaluations != sBefore.GradEvaluations || s.HessEvaluations != sBefore.HessEvaluations ||
+		s.MajorIterations != sBefore.MajorIterations || s.Concurrent != sBefore.Concurrent || s.Runtime != sBefore.Runtime ||
+		!vk.SameBits(s.GradientThreshold, sBefore.GradientThreshold) || s.InitValues != sBefore.InitValues || s.Recorder != sBefore.Recorder || s.Converger != sBefore.Converger:
+		out.modified = fmt.Sprintf("Settings is now %+v, was %+v", *s, sBefore)
+	default:
+		out.modified = bm.callerDataModified()
 	}
 	if p := gm.panicked.Load(); p != nil {
 		out.mpanic = *p
@@ -611,6 +692,10 @@ func judgeMin(c minCase, out outcome, reused bool) *vk.Failure {
 			kind = "nan-or-inf-objective"
 		}
 		return vk.Failf("method-panics/"+name+"/"+kind, "%s: Method.Run panicked: %s", desc(), out.mpanic)
+	}
+	if out.modified != "" {
+		// only InitValues is documented as "may be modified during the call"
+		return vk.Failf("minimize-modifies-caller-data", "%s: %s", out.modified, desc())
 	}
 	nT := c.tasks(o.dim)
 	serial := nT == 1
@@ -876,6 +961,12 @@ func judgeMin(c minCase, out outcome, reused bool) *vk.Failure {
 		// the value at x0 was supplied through InitValues
 		evaluated, valueOK = true, vk.SameBits(res.F, out.f0.(float64))
 	}
+	for i, v := range out.bm.nmVerts {
+		if sameBitsVec(res.X, v) && (!evaluated || !valueOK) {
+			// a vertex of the supplied initial simplex with its supplied value
+			evaluated, valueOK = true, vk.SameBits(res.F, out.bm.nmVals[i])
+		}
+	}
 	badF := math.IsNaN(res.F) || math.IsInf(res.F, 1)
 	if st.MajorIterations == 0 {
 		placeholder := math.IsInf(res.F, 1) && infNorm(res.X) == 0 && res.Gradient == nil
@@ -896,13 +987,16 @@ func judgeMin(c minCase, out outcome, reused bool) *vk.Failure {
 		}
 		return deferred
 	}
-	// A local method starts from a finite value and only declares accepted
-	// (decreasing) locations, so its result is never NaN/+Inf. A global method
-	// has nothing to report when no value below +Inf was ever returned: it then
-	// ends with F = +Inf at an unspecified X, the only class left unjudged.
-	if out.tp.anyBad && badF && !c.local() && !(out.tp.minF < math.Inf(1)) {
-		vk.Class("min-coherence-skipped/global-method-never-saw-a-value-below-inf")
-	} else {
+	// (a local method starts from a finite value and only declares accepted,
+	// decreasing locations; a global method that never saw a value below +Inf
+	// still has to report one of its samples)
+	{
+		if !evaluated && out.tp.anyBad && badF && (c.Method == mGuess || c.Method == mCmaEs) && !(out.tp.minF < math.Inf(1)) {
+			// no value below +Inf was ever returned: the best-location buffer
+			// (zeros, or the best point of the previous run of a reused method
+			// value) is declared although it was never written in this run
+			return vk.Failf("global-method-without-value-below-inf-reports-unevaluated-x", "%s", desc())
+		}
 		if !evaluated {
 			if c.Method == mCmaEs && int(fc) < c.popSize(o.dim) {
 				// stopped inside the first generation: the zero-initialised slots of
@@ -939,6 +1033,17 @@ func judgeMin(c minCase, out outcome, reused bool) *vk.Failure {
 			f0, known = out.f0.(float64), true
 		} else if out.tp.firstFSet {
 			f0, known = out.tp.firstF, true
+		}
+		if len(out.bm.nmVals) > 0 {
+			// "If an initial simplex is provided, it is used and initLoc is
+			// ignored": the reference is the best supplied vertex, not x0
+			// (the first major iteration is still x0: a run stopped there reports it)
+			if st.MajorIterations >= 2 {
+				f0, known = out.bm.nmVals[0], true
+				for _, v := range out.bm.nmVals {
+					f0 = math.Min(f0, v)
+				}
+			}
 		}
 		if known && !math.IsNaN(f0) && !math.IsInf(f0, 1) && !(res.F <= f0) {
 			if c.Method == mNelderMead && out.tp.anyBad {
@@ -982,7 +1087,7 @@ func judgeMin(c minCase, out outcome, reused bool) *vk.Failure {
 				if r.stats.MajorIterations != nMajor && serial {
 					return vk.Failf("recorder-major-count", "record %d: MajorIterations %d, %d-th major iteration: %s", i, r.stats.MajorIterations, nMajor, desc())
 				}
-				if (clean || c.local()) && !(c.Method == mCmaEs && c.Forget) && !(res.F <= r.f) {
+				if (clean || c.local()) && !(c.Method == mCmaEs && c.Forget) && !(nMajor == 1 && len(out.bm.nmVals) > 0) && !(res.F <= r.f) {
 					return vk.Failf("result-not-best-major-iteration", "major iteration %d had F=%v: %s", nMajor, r.f, desc())
 				}
 			}
@@ -1131,6 +1236,9 @@ func drawMin(t *rapid.T) minCase {
 		c.Start = rapid.SampledFrom([]int{0, 0, 0, 0, 0, 0, 1, 2}).Draw(t, "start")
 	} else {
 		c.Obj = 1 + rapid.IntRange(0, nCatalogue-1).Draw(t, "obj")
+	}
+	if rapid.IntRange(0, 2).Draw(t, "nmsimplexcls") == 0 {
+		c.NMSimplex = rapid.IntRange(1, 2).Draw(t, "nmsimplex")
 	}
 	if rapid.IntRange(0, 7).Draw(t, "domcls") == 0 {
 		c.Dom = rapid.IntRange(1, 3).Draw(t, "dom")
